@@ -46,3 +46,66 @@ Example C17_ex_huge_declared_length :
   let '(r, _, x') := recv_frame 100 false fb_init x in
   r = Raise ConnClosed /\ iolog x' = [IRead 2; IRead 8; IRead 16384].
 Proof. vm_compute. split; reflexivity. Qed.
+
+From WS Require Import Base.Str Model.Url Model.Open Model.Connect Proofs.HandshakeExn.
+
+(* Handshake phase, exception alphabet.  For EVERY scripted server (ASCII bytes, any chunking, timeouts,
+   resets, end of stream anywhere) the opening handshake raises only documented exceptions -- never an
+   Internal (TypeError/IndexError/KeyError/UnicodeError...) one -- and never runs out of fuel (no spinning). *)
+Theorem C17_read_headers_documented : forall x e x',
+  script_ok (inbox x) = true -> ascii_stream (inbox x) ->
+  read_headers x = (Raise e, x') -> documented e.
+Proof. exact read_headers_documented. Qed.
+Print Assumptions C17_read_headers_documented.
+
+Theorem C17_handshake_documented : forall x req key subs e x',
+  script_ok (inbox x) = true -> ascii_stream (inbox x) ->
+  handshake x req key subs = (Raise e, x') -> documented e.
+Proof. exact handshake_documented. Qed.
+Print Assumptions C17_handshake_documented.
+
+Theorem C17_handshake_no_spin : forall x req key subs r x',
+  script_ok (inbox x) = true -> handshake x req key subs = (r, x') -> r <> Raise OutOfFuel.
+Proof. exact handshake_no_spin. Qed.
+Print Assumptions C17_handshake_no_spin.
+
+(* the whole of connect(): URL parsing, socket opening, every redirect hop, every handshake *)
+Theorem C17_connect_documented : forall url o limit prepared st e st',
+  (forall x, prepared = Some x -> script_good (inbox x)) ->
+  Forall (fun c => script_good (n_script c)) (cs_net st) ->
+  (Z.to_nat limit + 1 <= length (cs_rand st))%nat ->
+  key_header_ok o ->
+  ws_connect url o limit prepared st = (Raise e, st') -> documented e.
+Proof. exact ws_connect_documented. Qed.
+Print Assumptions C17_connect_documented.
+
+Theorem C17_connect_no_spin : forall url o limit prepared st r st',
+  (Z.to_nat limit + 1 <= length (cs_rand st))%nat ->
+  key_header_ok o ->
+  ws_connect url o limit prepared st = (r, st') -> r <> Raise OutOfFuel.
+Proof. exact ws_connect_no_spin. Qed.
+Print Assumptions C17_connect_no_spin.
+
+(* the ASCII hypothesis cannot be dropped from the model-level statement: a valid-UTF-8 non-ASCII header
+   line is outside the model's domain (Python's Unicode strip()/lower()), marked Internal; the check
+   judges those inputs on the implementation directly *)
+Example C17_domain_edge : fst (read_headers (mk_xport [Data [195;169;10]])) = Raise (Internal TypeErr).
+Proof. exact non_ascii_line_is_internal. Qed.
+
+(* A server can never cause a ValueError: that exception only reports the caller's own invalid URL (a redirect to an invalid
+   location raises the library's own exception, before the current transport is closed). *)
+Theorem C17_ValueError_only_from_own_url : forall url o limit prepared st e st',
+  ws_connect url o limit prepared st = (Raise e, st') -> e = ValueErr -> exists e0, parse_url url = Raise e0.
+Proof. exact ws_connect_ValueErr_only_from_own_url. Qed.
+Print Assumptions C17_ValueError_only_from_own_url.
+
+Theorem C17_connect_documented_srv : forall url o limit prepared st e st',
+  (forall x, prepared = Some x -> script_good (inbox x)) ->
+  Forall (fun c => script_good (n_script c)) (cs_net st) ->
+  (Z.to_nat limit + 1 <= length (cs_rand st))%nat ->
+  key_header_ok o ->
+  (exists t, parse_url url = Ok t) ->
+  ws_connect url o limit prepared st = (Raise e, st') -> documented_srv e.
+Proof. exact ws_connect_documented_srv. Qed.
+Print Assumptions C17_connect_documented_srv.
+
